@@ -43,7 +43,7 @@ META = {
 
 KINDS = ['section', 'subsection', 'equation', 'item', 'item2', 'figure', 'figure0', 'table', 'theorem', 'lemma', 'prop',
          'subsubsection', 'paragraph', 'figurec', 'tablec', 'captionin', 'align1', 'align2', 'eqnarray1', 'eqnarray2',
-         'sectionstar', 'subsectionstar', 'eqaligned', 'longtable', 'longtable2']
+         'sectionstar', 'subsectionstar', 'eqaligned', 'longtable', 'longtable2', 'item3']
 HEADINGS = ('section', 'subsection', 'subsubsection', 'paragraph', 'sectionstar', 'subsectionstar')
 
 
@@ -236,6 +236,10 @@ def compile_doc(events):
             # the labelled item is the second of its list and follows a nested list
             lines.append('\\begin{enumerate}\\item first\\begin{enumerate}\\item inner\\item inner2\\end{enumerate}'
                          '\\item %s %s %s %s\\item last\\end{enumerate}' % (pre, lab, m, post))
+        elif k == 'item3':
+            # the labelled item is the FIRST item of the second of two sibling sub-lists of one outer item
+            lines.append('\\begin{enumerate}\\item outer\\begin{enumerate}\\item a\\item b\\end{enumerate}'
+                         '\\begin{enumerate}\\item %s %s %s %s\\item c\\end{enumerate}\\item last\\end{enumerate}' % (pre, lab, m, post))
         elif k == 'lemma':
             lines.append('\\begin{lem}%s %s %s %s\\end{lem}' % (lab, pre, m, post))
         elif k == 'prop':
@@ -297,7 +301,7 @@ EXPECT_NODE = {'section': ('section',), 'subsection': ('subsection',), 'equation
                'figure': ('caption',), 'table': ('caption',), 'theorem': ('thm', 'thmenv'), 'item2': ('item',),
                'lemma': ('lem', 'thmenv'), 'figure0': ('caption',), 'prop': ('prop', 'thmenv'),
                'subsubsection': ('subsubsection',), 'paragraph': ('paragraph',), 'figurec': ('caption',), 'tablec': ('caption',),
-               'eqaligned': ('equation',), 'longtable': ('caption',), 'longtable2': ('caption',),
+               'item3': ('item',), 'eqaligned': ('equation',), 'longtable': ('caption',), 'longtable2': ('caption',),
                'sectionstar': ('section',), 'subsectionstar': ('subsection',), 'captionin': ('caption',), 'align1': ('align',), 'align2': ('ArrayRow',), 'eqnarray1': ('eqnarray',), 'eqnarray2': ('ArrayRow',)}
 
 
@@ -338,9 +342,19 @@ def run_doc(events, objs):
                             pass
                 except Exception:
                     txt = ''
-                if ('T' + o['m'] in txt) or ('C' + o['m'] in txt) or (o['kind'] in ('equation', 'item', 'item2', 'theorem', 'lemma', 'prop') and o['m'] in txt.split()) \
+                if ('T' + o['m'] in txt) or ('C' + o['m'] in txt) or (o['kind'] in ('equation', 'item', 'item2', 'item3', 'theorem', 'lemma', 'prop') and o['m'] in txt.split()) \
                         or (o['kind'] in ('equation', 'align1', 'align2', 'eqnarray1', 'eqnarray2', 'eqaligned') and o['m'] in txt):
                     cands.append(n)
+        if o['kind'] == 'item3' and len(cands) > 1:
+            # the enclosing outer item contains the marker too: the object is the innermost candidate
+            def inside(a, b):
+                p = a.parentNode
+                while p is not None:
+                    if p is b:
+                        return True
+                    p = p.parentNode
+                return False
+            cands = [c for c in cands if not any(inside(d, c) for d in cands if d is not c)]
         objnode[o['m']] = cands
     out = {}
     for n in nodes:
@@ -551,7 +565,7 @@ def _probes(ev, objs, refs, info):
                 seen_labels.add(o['label'])
                 if pending.get(o['label'], 0) >= 2:
                     info['two_pending_same_label'] = 1
-                if o['kind'] in ('item', 'item2'):
+                if o['kind'] in ('item', 'item2', 'item3'):
                     info['label_on_item'] = 1
                 if o['kind'] in ('figure', 'table', 'figure0', 'figurec', 'tablec'):
                     info['label_on_caption'] = 1
@@ -614,8 +628,8 @@ def expected_numbers(objs):
             n['prop'] += 1
             out[o['m']] = '%d.%d.%d' % (n['section'], n['subsection'], n['prop'])
             continue
-        if k in ('item', 'item2'):
-            out[o['m']] = '1' if k == 'item' else '2'
+        if k in ('item', 'item2', 'item3'):
+            out[o['m']] = '2' if k == 'item2' else '1'
             continue
         if k in ('subsubsection', 'paragraph', 'sectionstar', 'subsectionstar'):
             # beyond sec-num-depth / starred: no number is printed - and none is CONSUMED: the numbers of the objects
